@@ -24,7 +24,7 @@
 //!        ops  fail {h, err:{kind,code}} | healthy {h} | select {set:[h..]} | cleanup | wait {ms} (real clock)
 //!                                                  -> res {kind:"Ok"[,h]}; obs {health:{h:[state,rem_s]},w10:{h:n},stats:[f,r]}
 //!  rec   cfg {servers, maxatt, base_ms, max_ms, jit, ros, timeout_ms}
-//!        ops  exec {outs:[{kind,code}..], set:[h..], urlhost:h, range:[s,e]|null}
+//!        ops  exec {outs:[{kind,code}..], set:[h..], urlhost:h, range:[s,e]|[]}
 //!                   -> one {"op":"call",i,t,to,range_ok,o} event per get_range seen by the scripted client, then
 //!                      {"op":"exec",..,"res":{kind,id|code},"t":ms,"obs":{srv:{h:[total,failed,w10]},retry:[t,s,f],fo:[f,r]}}
 //!             cleanup
@@ -451,7 +451,7 @@ fn run_rec(p: &Value, em: &Emit) {
             "exec" => {
                 let set = subset(&all, &op["set"]);
                 let url = format!("http://{}/tpr/x/data/ab/cd/abcd", s(op, "urlhost"));
-                let range = op["range"].as_array().map(|r| HttpRange { start: r[0].as_u64().expect("s"), end: r[1].as_u64().expect("e") });
+                let range = op["range"].as_array().filter(|r| r.len() == 2).map(|r| HttpRange { start: r[0].as_u64().expect("s"), end: r[1].as_u64().expect("e") });
                 *client.script.lock().expect("script") = op["outs"].as_array().expect("outs").clone();
                 client.n.store(0, Ordering::SeqCst);
                 *client.want_range.lock().expect("range") = range;
